@@ -21,6 +21,7 @@ structure Mon where
   putFor : List (String × String) := []     -- (tag, digest) of every PUT request made
   okPut : List String := []                 -- tags with an acknowledged PUT
   first : List (String × String) := []      -- the first digest seen for a tag on the node (disk or GET)
+  evicted : List String := []               -- tags whose file was evicted from the node's disk at least once
 
 structure St where
   m : State := {}
@@ -59,16 +60,23 @@ def dumpToks (s : State) : List String :=
 def pairs (tok : String) : List (String × String) :=
   (list? tok).filterMap fun e => match e.splitOn ":" with | [a, b] => some (a, b) | _ => none
 
-/-- the property's predicates on what the implementation answered and dumped -/
-def monitor (wt : Bool) (mon : Mon) (args impl : List String) (final : Bool) : List String × Mon :=
+/-- the property's predicates on what the implementation answered and dumped.  A violation on a tag
+that was evicted from the node and put with more than one digest is the known finding
+(the executor's Stat short-cut keeps the old digest in the backend); everything else keeps its key. -/
+def monitor (wt : Bool) (backendUp : Bool) (mon : Mon) (args impl : List String) (final : Bool) : List String × Mon :=
   let disk := pairs ((kv? impl "disk").getD "-")
   let inb := pairs ((kv? impl "b").getD "-")
   let tbl := (list? ((kv? impl "t").getD "-")).map fun r => (r.splitOn ":").headD ""
   let res := impl.headD ""
+  let mon := match args with
+    | ["evict", t] => if res = "ok" then { mon with evicted := t :: mon.evicted } else mon
+    | ["put", t, d, _] => { mon with putFor := (t, d) :: mon.putFor }
+    | _ => mon
+  let reput (t : String) : Bool := t ∈ mon.evicted ∧ ((mon.putFor.filter (·.1 = t)).map (·.2)).eraseDups.length > 1
+  let key (t : String) (k : String) : String := if reput t then "evicted-tag-reput-keeps-old-backend-digest" else k
   -- bookkeeping of this op
   let (mon, pf0) := match args with
-    | ["put", t, d, deps] =>
-      let mon := { mon with putFor := (t, d) :: mon.putFor }
+    | ["put", t, _, deps] =>
       let answers := list? ((kv? [deps] "deps").getD "-")
       if res = "ok" then
         ({ mon with okPut := if t ∈ mon.okPut then mon.okPut else t :: mon.okPut },
@@ -77,28 +85,37 @@ def monitor (wt : Bool) (mon : Mon) (args impl : List String) (final : Bool) : L
          (if disk.lookup t = none then
             [s!"side=impl key=acked-tag-not-resolvable PUT {t} was acknowledged and the node does not hold the tag"] else []) ++
          (if wt ∧ inb.lookup t ≠ disk.lookup t then
-            [s!"side=impl key=write-through-not-synchronous PUT {t} was acknowledged in write-through mode: backend {inb.lookup t} node {disk.lookup t}"] else []))
+            [s!"side=impl key={key t "write-through-not-synchronous"} PUT {t} was acknowledged in write-through mode: backend {inb.lookup t} node {disk.lookup t}"] else []))
       else (mon, [])
     | ["get", t] =>
       if res = "notfound" ∨ res = "err" then
-        (mon, if t ∈ mon.okPut then [s!"side=impl key=acked-tag-not-resolvable GET {t} = {res} after an acknowledged PUT"] else [])
+        (mon, if t ∈ mon.okPut ∧ (backendUp ∨ disk.lookup t ≠ none) then
+          [s!"side=impl key=acked-tag-not-resolvable GET {t} = {res} after an acknowledged PUT"] else [])
       else
         (mon, (if (t, res) ∉ mon.putFor then [s!"side=impl key=tag-resolves-unput-digest GET {t} = {res}, never put for it"] else []) ++
               (match mon.first.lookup t with
-               | some d0 => if d0 ≠ res then [s!"side=impl key=tag-changed GET {t} = {res}, the node held {d0} before"] else []
+               | some d0 => if d0 ≠ res then [s!"side=impl key={key t "tag-changed"} GET {t} = {res}, the node answered / held {d0} before"] else []
                | none => []))
+    | ["evict", t] =>
+      (mon, if res = "ok" ∧ inb.lookup t = none then
+        [s!"side=impl key=evicted-before-write-back the tag file {t} was evicted while the backend does not hold the tag"] else [])
     | _ => (mon, [])
-  -- the node's disk never changes a tag; the backend only holds copies of it
+  -- the node never changes a tag; the backend never holds another digest than the node
   let pf1 := disk.filterMap fun (t, d) =>
     match mon.first.lookup t with
-    | some d0 => if d0 ≠ d then some s!"side=impl key=tag-changed the node holds {t} = {d}, it held {d0} before" else none
+    | some d0 => if d0 ≠ d then some s!"side=impl key={key t "tag-changed"} the node holds {t} = {d}, it held {d0} before" else none
     | none => none
   let mon := { mon with first := mon.first ++ disk.filter fun (t, _) => mon.first.lookup t = none }
+  let mon := match args with
+    | ["get", t] => if res ≠ "notfound" ∧ res ≠ "err" ∧ mon.first.lookup t = none then { mon with first := mon.first ++ [(t, res)] } else mon
+    | _ => mon
   let pf2 := inb.filterMap fun (t, d) =>
-    if disk.lookup t ≠ some d then some s!"side=impl key=backend-differs-from-node backend holds {t} = {d}, the node holds {disk.lookup t}" else none
+    match disk.lookup t with
+    | some d' => if d' ≠ d then some s!"side=impl key={key t "backend-differs-from-node"} backend holds {t} = {d}, the node holds {d'}" else none
+    | none => none
   let pf3 := mon.okPut.filterMap fun t =>
-    let same := disk.lookup t ≠ none ∧ inb.lookup t = disk.lookup t
-    if same ∨ (!final ∧ !wt ∧ t ∈ tbl) then none
+    let written := inb.lookup t ≠ none
+    if written ∨ (!final ∧ !wt ∧ disk.lookup t ≠ none ∧ t ∈ tbl) then none
     else some (s!"side=impl key=acked-tag-not-written-back {t} has an acknowledged PUT; backend {inb.lookup t} node {disk.lookup t} " ++
       (if final then "after all write-back tasks ran" else s!"and no write-back task is stored {tbl}"))
   (pf0 ++ pf1 ++ pf2 ++ pf3, mon)
@@ -106,7 +123,7 @@ def monitor (wt : Bool) (mon : Mon) (args impl : List String) (final : Bool) : L
 def step' (s : St) (kind : String) (args impl : List String) : Option (St × StepOut) :=
   if kind ≠ "op" then none else
   let fin (s' : St) (obs : List String) (br : String) (final := false) : Option (St × StepOut) :=
-    let (pfs, mon) := monitor s.m.writeThrough s.mon args impl final
+    let (pfs, mon) := monitor s.m.writeThrough (s.fail == 0) s.mon args impl final
     some ({ s' with mon }, { obs := obs ++ dumpToks s'.m, branch := br, propfails := pfs })
   match args with
   | ["put", tt, dt, depst] => do
@@ -143,6 +160,11 @@ def step' (s : St) (kind : String) (args impl : List String) : Option (St × Ste
         (if o = .ok then (if (lookup s.m.backend t).isSome then "exec.present" else "exec.uploaded") else "exec.failed")
     | _ => fin s ["none"] "exec.none"
   | ["restart"] => fin { s with m := TagStore.step s.m .restart } ["ok"] "restart"
+  | ["evict", tt] => do
+    let t ← idx? 't' tt
+    let (m1, o) := stepO s.m (.evict t)
+    fin { s with m := m1 } [match o with | .ok => "ok" | .refused => "refused" | _ => "absent"]
+      (match o with | .ok => "evict.ok" | .refused => "evict.refused" | _ => "evict.absent")
   | ["final"] => fin s [] "final" (final := true)
   | _ => none
 
